@@ -124,9 +124,11 @@ Definition contract_class (ns : nat) (c : class) : class :=
 Definition contract_idx (M : mappings) (ns : nat) : mappings :=
   mkMappings (ms_ns M) (ms_doc M) (map (contract_class ns) (ms_classes M)).
 
-(* Mappings::contract_inner_class_names(namespace: &str) *)
+(* Mappings::contract_inner_class_names(namespace: &str): unknown namespace -> Err; the first
+   namespace -> Err (fix 4d8ec0a: its names are the map keys) *)
 Definition contract (M : mappings) (name : str) : res mappings :=
   match ns_index (ms_ns M) name with
+  | Some O => Err
   | Some ns => Ok (contract_idx M ns)
   | None => Err
   end.
